@@ -112,6 +112,20 @@ def run(ctx):
             ssum = obj.summary([nodes[v] for v in sub])
             sts = allsims.statuses_of(c)
             sub_impl = dict(times=arr(ssum[0]), cols=[iarr(ssum[1][s]) for s in sts])
+            # the object is queried in another order too: whole-population accessors right AFTER a sub-population summary
+            # (and the whole-population summary after that) must still describe the whole population
+            acc2 = dict(t=arr(obj.t()))
+            for s_ in ("S", "I", "R"):
+                if s_ in sts:
+                    try:
+                        acc2[s_] = iarr(getattr(obj, s_)())
+                    except Exception as e_:
+                        acc2[s_] = "err:" + type(e_).__name__
+            again = obj.summary()
+            again = dict(times=arr(again[0]), cols=[iarr(again[1][s_]) for s_ in sts])
+            if acc2 != full["accessors"] or again != full["summary"]:
+                ctx.violation("%s: t()/S()/I()/R() / summary() of the whole population change after summary(nodelist=<sub-population>) was asked"
+                              % sim, dict(rep, sub=sub, before=full["accessors"], after=acc2, summary_before=full["summary"], summary_after=again))
             reqs.append(dict(op="c10", legal=legal_moves(c), tmin=c["tmin"], hists=full["history"], statuses=sts,
                              arrays=dict(times=plain["times"], cols=plain["cols"]), strict=not KIND[sim].endswith("Disc"), queries=queries))
             reqs.append(dict(op="c10", legal=legal_moves(c), tmin=c["tmin"], hists=[full["history"][v] for v in sub], statuses=sts,
